@@ -1,12 +1,13 @@
 package main
 
 import (
-	"os"
 	"fmt"
 	"go/constant"
 	"go/token"
 	"go/types"
+	"os"
 	"strings"
+	"sync"
 
 	"golang.org/x/tools/go/ssa"
 )
@@ -398,13 +399,20 @@ func (x *X) instr(fr *frame, b *ssa.BasicBlock, in ssa.Instruction, only map[int
 		if x.prune && x.st.cond != "false" {
 			x.externs["branches ruled out by the assumptions are dropped after an unsat answer of z3 5.1.0 (pruning) in "+x.curFn] = true
 			// a function under contract: branches its precondition rules out are not followed
+			// both sides are put to the solver at the same time
+			var deadT, deadF bool
+			var wg sync.WaitGroup
+			wg.Add(2)
+			go func() { defer wg.Done(); deadT = x.unreachable(and(x.st.cond, c)) }()
+			go func() { defer wg.Done(); deadF = x.unreachable(and(x.st.cond, not(c))) }()
+			wg.Wait()
 			switch {
-			case x.unreachable(and(x.st.cond, c)):
+			case deadT:
 				x.pruned++
 				x.pushEdge(fr, b, b.Succs[0], "false", only)
 				x.pushEdge(fr, b, b.Succs[1], "true", only)
 				return
-			case x.unreachable(and(x.st.cond, not(c))):
+			case deadF:
 				x.pruned++
 				x.pushEdge(fr, b, b.Succs[0], "true", only)
 				x.pushEdge(fr, b, b.Succs[1], "false", only)
